@@ -17,10 +17,10 @@ func init() {
 		Level: "Decides that every path through appender creation / Commit / Rollback changes the active-appender gauge exactly once; that the three series-deleting siblings and the " +
 			"snapshot loader adjust the same family of counters independently per series state; that the function discarding all series resets every counter the loaders increment; " +
 			"and that every site installing or discarding chunks of a series is paired with a chunk-gauge adjustment.",
-		Note:     "Trusted: go/packages, go/cfg; the family tables in checker/c52.go (confirmed by reading; findings F1/F9 were repaired by fix: commits).",
-		Covers:   "activeAppenders Inc/Dec pairing (v1, v2, init appenders); counter family of gc/gcSeries/deleteSeriesByID/loadChunkSnapshot/resetInMemoryState; metric update calls in commit*/WAL-replay append arms; chunk gauge adjustment next to setHeadChunks / mmappedChunks writers.",
-		NotCover: "that the deltas are numerically right; histories (which sequence of operations reaches which site).",
-		Run:      runC52,
+		Note:           "Trusted: go/packages, go/cfg; the family tables in checker/c52.go (confirmed by reading; findings F1/F9 were repaired by fix: commits).",
+		Covers:         "activeAppenders Inc/Dec pairing (v1, v2, init appenders); counter family of gc/gcSeries/deleteSeriesByID/loadChunkSnapshot/resetInMemoryState; metric update calls in commit*/WAL-replay append arms; chunk gauge adjustment next to setHeadChunks / mmappedChunks writers.",
+		NotCover:       "that the deltas are numerically right; histories (which sequence of operations reaches which site).",
+		Run:            runC52,
 		MinObligations: 60,
 	})
 }
@@ -46,7 +46,7 @@ func runC52(c *eng.Ctx) {
 	for _, s := range []struct{ typ, iface string }{{"initAppender", "storage:Appender"}, {"initAppenderV2", "storage:AppenderV2"}} {
 		for _, m := range []string{"Commit", "Rollback"} {
 			f := c.Fn("tsdb:" + s.typ + "." + m)
-			delegate := p.Call(s.iface + "." + m).WithRecv("a.app", p.IsFieldExpr("tsdb:"+s.typ+".app"))
+			delegate := p.Call(s.iface+"."+m).WithRecv("a.app", p.IsFieldExpr("tsdb:"+s.typ+".app"))
 			f.CountOnPaths("R1", "activeAppenders.Dec (direct or by delegating to a.app."+m+")", []eng.Matcher{dec, delegate}, 1, eng.AnyExit)
 		}
 	}
@@ -97,9 +97,9 @@ func runC52(c *eng.Ctx) {
 		f.Dom("R2", state, a.hist)
 		f.Dom("R2", a.hist, a.bucket)
 		st, hi := a.stale, a.hist
-		f.PathExists("R2", &st, a.hist, state)        // a stale histogram series counts in both (same series: without passing sampleState again)
-		f.PathExists("R2", &state, a.hist, a.stale)   // a live histogram series counts as histogram
-		f.PathExists("R2", &state, a.stale, a.hist)   // (order) stale is decided before histogram …
+		f.PathExists("R2", &st, a.hist, state)      // a stale histogram series counts in both (same series: without passing sampleState again)
+		f.PathExists("R2", &state, a.hist, a.stale) // a live histogram series counts as histogram
+		f.PathExists("R2", &state, a.stale, a.hist) // (order) stale is decided before histogram …
 		_ = hi
 	}
 	// every reader of the per-series state is in the family table (a new one must be classified)
